@@ -279,6 +279,19 @@ Theorem C26_doc_nest_cross_scope :
 Proof. exact nest_cross_scope. Qed.
 Print Assumptions C26_doc_nest_cross_scope.
 
+(** when the sequence is a whole number [m] of repetitions of [n] trials (a Nest of an outer block of [m]
+    trials and an inner block of [n] trials without MinimumTrials: [m * n] trials), the inner constraints
+    have exactly one window of [n] trials per outer trial, and an outer constraint's window
+    ([chunk_windows (m * n) (m * n)]) is the whole sequence *)
+Theorem C26_doc_chunks_exact :
+  forall m n, 0 < n -> chunk_windows n (m * n) = map (fun j => (j * n, (j + 1) * n)) (seq 0 m).
+Proof. exact chunk_windows_exact. Qed.
+Print Assumptions C26_doc_chunks_exact.
+
+Theorem C26_doc_chunks_one : forall T, 0 < T -> chunk_windows T T = [(0, T)].
+Proof. exact chunk_windows_one. Qed.
+Print Assumptions C26_doc_chunks_one.
+
 (** "applies separately within each repetition": a run-length or count constraint
     (AtMostKInARow, AtLeastKInARow, ExactlyKInARow, ExactlyK) holds on the sequence iff, for each of its
     windows, it holds on the trials of that window taken alone, as a sequence with the single window [0, Tb) *)
